@@ -29,11 +29,13 @@ Definition els_ok (g : graph) : Prop := forall p, In p (gnodes g) -> el_ok (el (
     a missing standard_order is rendered differently from 0.0 by the signature and by the nauty label, so
     presence is part of the covered value *)
 Definition ncov (a : nattr) : list N * Z * bool * Z := (el a, ch a, ar a, hc a).
-Definition ecov (a : eattr) : Z * option Z := (eo a, es a).
+(* (order, after-order of a tuple-valued order or None, standard_order or None) *)
+Definition ecv : Type := (Z * option Z * option Z)%type.
+Definition ecov (a : eattr) : ecv := (eo a, et a, es a).
 Definition covn (p : N * nattr) : N * (list N * Z * bool * Z) := (fst p, ncov (snd p)).
-Definition cove (e : N * N * eattr) : N * N * (Z * option Z) := let '(u, v, a) := e in (N.min u v, N.max u v, ecov a).
+Definition cove (e : N * N * eattr) : N * N * ecv := let '(u, v, a) := e in (N.min u v, N.max u v, ecov a).
 Definition cov_nodes (g : graph) : list (N * (list N * Z * bool * Z)) := map covn (gnodes g).
-Definition cov_edges (g : graph) : list (N * N * (Z * option Z)) := map cove (gedges g).
+Definition cov_edges (g : graph) : list (N * N * ecv) := map cove (gedges g).
 (** same graph on the covered attributes: same labelled node set, same labelled set of unordered edges *)
 Definition geq_cov (g h : graph) : Prop :=
   Permutation (cov_nodes g) (cov_nodes h) /\ Permutation (cov_edges g) (cov_edges h).
